@@ -88,6 +88,17 @@ def result_warn_always():
     return _pkg("wfh", [Module("wfh/mod_a.py", "wfh.mod_a", funcs=[f])], style="numpydoc"), {}
 
 
+def reexport_by_package_not_above():
+    shared = Cls("Shared001", methods=[Func("run002", [], ret=Ann("int"))])
+    home = Module("wfn/_impl.py", "wfn._impl", classes=[shared])
+    user = Module("wfn/mod_a.py", "wfn.mod_a", imports=["from wfn._impl import Shared001"],
+                  funcs=[Func("use003", [Param("p004", "pos", Ann("ref", name="Shared001", module="wfn._impl"))], ret=Ann("int"))])
+    filler = Module("wfn/api/mod_b.py", "wfn.api.mod_b", funcs=[Func("other005", [], ret=Ann("int"))])
+    inits = [Init("wfn/__init__.py", "wfn"), Init("wfn/api/__init__.py", "wfn.api", lines=["from wfn._impl import Shared001"])]
+    return _pkg("wfn", [home, user, filler], inits), {}
+
+
 BUILDERS = {f.__name__: f for f in [enum_without_publicity_test, property_tuple_as_union, callable_attribute_untyped,
                                     none_result_suppresses_list, typevar_typed_attribute_dropped, private_class_as_type,
-                                    nc_snake_case_class_reference, result_warn_always, stale_class_generics, rename_on_model, enum_name_not_converted, class_attribute_list_items_by_name, tuple_returns_equal_up_to_order]}
+                                    nc_snake_case_class_reference, result_warn_always, stale_class_generics, rename_on_model, enum_name_not_converted, class_attribute_list_items_by_name, tuple_returns_equal_up_to_order,
+                                    reexport_by_package_not_above]}
